@@ -9,6 +9,8 @@ MCAll == [Procs -> {BehOps(b) : b \in AllBehNames}]
 (* the status-class behaviours (101, 1xx, 204, 304, 599, 999) against each other *)
 MCClasses == [Procs -> {BehOps(b) : b \in ClassBehNames}]
 
+MCHijack == [Procs -> {BehOps(b) : b \in HijackBehNames \cup {"none", "wh404"}}]
+
 T(a, b, c) == <<BehOps(a), BehOps(b), BehOps(c)>>
 
 (* three slots: one assignment mixing an explicit code, no call at all and   *)
